@@ -42,6 +42,8 @@ func main() {
 		return
 	case "c01":
 		runC01(r, a, out)
+	case "c01x": // exploration stream (rich fragment, impl vs impl), see rich.go
+		runC01x(r, a)
 	case "c04":
 		runC04(r, a, out)
 	case "c05":
